@@ -33,6 +33,11 @@ CLAIMED = {
   "text": "Partial: Verus's totality obligations (no arithmetic overflow on u64/u32/usize, no out-of-bounds index/slice, no unwrap/expect on None/Err, no reachable panic!, dependency calls that panic modelled as preconditions) are discharged for every function extracted in units difficulty, peer_state and proof_gate with NO assumption on peer-controlled inputs; the SendLastState and SendLastStateProof handlers are covered end to end. Five peer-triggerable panics were found this way and fixed (bdfa2f5, 4e1a4f2, f66b534, S1h); the U256-overflow sites reachable only with absurd difficulties are listed known findings (D2).",
   "note": "Handlers not yet under contract are named in the evidence (not_decided). Molecule decoding and dependencies are assumed total.",
   "ref": "DESIGN.md 5-C10"},
+
+ "C02": {
+  "text": "Gate-by-precondition over the real text of SendBlocksProofProcess::{execute, execute_internally}, SendTransactionsProofProcess::{execute, execute_internally}, verify_extra_hash, BlocksProofRequest::check_block_hashes, TransactionsProofRequest::check_tx_hashes (iff against 'response == request'), verify_mmr_proof: a matched block is flagged proved, a header is stored as fetched, a transaction is stored as fetched, and hashes are reported not_found only under evidence whose introduction rules are the property's conjunction (response's last header is the one the request named and commits to its chain root; valid MMR proof binds the returned headers; PoW valid; v1 extension committed by the extra hash; CBMT proof + witnesses root reproduce the header's transactions root for the shipped transactions; the response answers the outstanding request; the hash was requested). Verus proves every path reaching a writer carries it.",
+  "note": "Partial: the SendBlock body path (SyncProtocol) is not under contract (named in evidence). Crypto functions uninterpreted; readers/storage/peer table are shims.",
+  "ref": "DESIGN.md 5-C02"},
 }
 
 NOT_APPLICABLE = {
